@@ -539,5 +539,16 @@ def rule_credit_handed_on_at_once(ctx):
     c06a(ctx)
 
 
+
+def rule_default_subscriber_keeps_its_subscription(ctx):
+    """(shared C01.o)  The subscription a DefaultSubscriber holds is the one of the stream it is subscribed to now:
+    on_subscribe stores what it is handed on every path.  Applications cancel through `self.subscription.cancel()`; a
+    subscriber object that keeps the handle of an earlier, finished stream sends CANCEL for that id and none for the
+    live one (rules/c01.py)."""
+    from .c01 import rule_default_subscriber
+    rule_default_subscriber(ctx)
+
+
+
 RULES = [('C09.a', rule_a), ('C09.b', rule_b), ('C09.c', rule_c), ('C09.d', rule_d), ('C09.e', rule_e),
-         ('C09.f', c07b), ('C09.g', rule_g), ('C05.a', rule_order), ('C20.d', rule_rx), ('C09.i', rule_router_future), ('C09.j', rule_generator_adapters), ('C05.h', rule_builders_fresh), ('C01.h', rule_adapter_cancellation), ('C01.d', rule_response_future_wired), ('C06.a', rule_credit_handed_on_at_once)]
+         ('C09.f', c07b), ('C09.g', rule_g), ('C05.a', rule_order), ('C20.d', rule_rx), ('C09.i', rule_router_future), ('C09.j', rule_generator_adapters), ('C05.h', rule_builders_fresh), ('C01.h', rule_adapter_cancellation), ('C01.d', rule_response_future_wired), ('C06.a', rule_credit_handed_on_at_once), ('C01.o', rule_default_subscriber_keeps_its_subscription)]
